@@ -114,6 +114,39 @@ def check_pair(ctx, a, b, tag, defs=None):
                        "problems": problems, "distinguishing_word": conf, "tag": tag})
 
 
+def check_session(ctx, refdef, otherdefs, tag):
+    """One long-lived left operand compared with a series of short-lived right operands (each dropped before the next
+    is built): the answers must not depend on what was compared before."""
+    ref = mk_nfa(refdef)
+    got = []
+    for od in otherdefs:
+        other = mk_nfa(od)
+        got.append((outcome(lambda: ref == other), outcome(lambda: ref != other)))
+        del other
+    sy = enc.SymMap(ref.input_symbols)
+    tr = enc.enc_nfa(ref, None, sy)
+    items = [(7, 5, enc.tree([tr, enc.enc_nfa(mk_nfa(od), None, sy)])) for od in otherdefs]
+    for j, (od, (g_eq, g_ne), ans) in enumerate(zip(otherdefs, got, ctx.driver.batch(items))):
+        m_eq = enc.dec_res(ans[0])
+        ctx.tally("session_comparison")
+        if m_eq[0] != "ok":
+            continue
+        want = m_eq[1] == 1
+        problems = []
+        if g_eq[:2] != ("ok", want):
+            problems.append(f"eq: impl {g_eq} expected {want}")
+        if g_ne[:2] != ("ok", not want):
+            problems.append(f"ne: impl {g_ne} expected {not want}")
+        if problems:
+            x, y = mk_nfa(refdef), mk_nfa(od)
+            fresh = outcome(lambda: x == y)
+            ctx.violation(f"NFA comparison #{j + 1} of a series on one left operand disagrees with language equivalence "
+                          f"(the same comparison on fresh objects gives {fresh}): " + "; ".join(problems),
+                          {"kind": "session", "A": repr(refdef), "Bs": [repr(o) for o in otherdefs], "index": j,
+                           "problems": problems, "tag": tag})
+            return
+
+
 def flip_final(rng, ndef):
     d = dict(ndef)
     q = rng.choice(sorted(ndef["states"], key=enc.sort_key))
@@ -133,6 +166,10 @@ def run(ctx):
             for _ in range(4):
                 x, y, tag = gen.lasso_pair(rng, rng.choice(["a", "a", "ab"]))
                 check_pair(ctx, mk_nfa(x), mk_nfa(y), tag)
+        if i % 5 == 0:
+            others = [gen.rand_nfa_def(rng, nmax=5, alphabet=sigma) if rng.random() < 0.7 else flip_final(rng, adef)
+                      for _ in range(5)]
+            check_session(ctx, adef, others, "session")
         if r < 0.4:
             check_pair(ctx, a, mk_nfa(gen.rand_nfa_def(rng, nmax=5, alphabet=sigma)), "random")
         elif r < 0.8:
@@ -141,9 +178,16 @@ def run(ctx):
                     check_pair(ctx, a, b, tag)
         else:
             check_pair(ctx, a, mk_nfa(flip_final(rng, adef)), "one_flag_flipped")
+            # a structurally different automaton for nearly the same language: a variant with one flag flipped
+            for tag, b in variants(rng, a):
+                if 2 <= len(b.states) <= 9:
+                    bdef = flip_final(rng, dict(b.input_parameters))
+                    check_pair(ctx, a, mk_nfa(bdef), tag + "_one_flag_flipped")
 
 
 def replay(ctx, case):
+    if case["kind"] == "session":
+        check_session(ctx, load_def(case["A"]), [load_def(b) for b in case["Bs"]], "replay")
     if case["kind"] == "pair":
         check_pair(ctx, mk_nfa(load_def(case["A"])), mk_nfa(load_def(case["B"])), "replay")
     print("replay:", "VIOLATION reproduced" if ctx.violations else "no disagreement")
